@@ -20,12 +20,12 @@ def c08e(kind, dl, md, **kw): return job("H_C08_e2e", conc=True, reach=["checked
 c08_tail = [job("H_C08_client", reach=["future-deadline", "expired-deadline"]), job("H_C08_nodeadline", reach=["done"]), c08e(0, 1, 0), c08e(1, 1, 0), c08e(0, 0, 0), c08e(1, 0, 0), c08e(0, 1, 0, stats=1), c08e(1, 1, 0, stats=1)]
 P["C08"] = {
  "title": "caller deadlines reach the handler; timeout header values mean what they say",
- "bounds": "parser vs grammar: every byte string of each length 0..10 (quick) / 0..13 (thorough); header lookup: 2 entries (thorough 3), key from {grpc-timeout in any letter case, 3 other keys}, every 2-byte (thorough 3-byte) value; client encoding: every deadline from 18 min in the past to 10^4 h ahead, arbitrary non-decreasing clock instants; end to end through the exported API (H_C08_e2e): one unary / one streaming call on a real client+server pair with such a deadline (or none), every schedule, every non-decreasing clock",
+ "bounds": "parser vs grammar: every byte string of each length 0..10 (quick) / 0..13 (thorough); header lookup: 2 entries (thorough 3), key from {grpc-timeout in any letter case, 3 other keys}, every 2-byte (thorough 3-byte) value; client encoding: every deadline from 18 min in the past to 10^4 h ahead, arbitrary non-decreasing clock instants; end to end through the exported API (H_C08_e2e): one unary / one streaming call on a real client+server pair with such a deadline (or none), every schedule, every non-decreasing clock; a stream open with a valid timeout and undecodable metadata starts no handler (H_C12_seq first=8)",
  "assumptions": ["time.Now() returns arbitrary non-decreasing instants in [2^40, 2^60] ns; vfFreezeClock pins the instant observed inside one call",
    "time.Until/Time.Add/Sub modelled as 64-bit subtraction/addition (no monotonic-clock handling)",
    "strconv.ParseInt executed from its own SSA; fmt.Sprintf(\"%dm\") yields a digit string introduced by constraint (canonical form)"],
  "quick": [c08_parse(n) for n in range(0, 11)] + [job("H_C08_lookup", reach=["has-deadline", "no-deadline"], entries=2, vlen=2),
-            job("H_C08_lookup", reach=["has-deadline", "no-deadline"], entries=1, vlen=3), job("H_selftest_lib", reach=["checked"])] + idioms + c08_tail,
+            job("H_C08_lookup", reach=["has-deadline", "no-deadline"], entries=1, vlen=3), job("H_selftest_lib", reach=["checked"])] + idioms + c08_tail + [job("H_C12_seq", conc=True, reach=["checked"], L=2, first=8, second=5)],  # an open whose headers cannot be decoded (timeout + bad -bin value) starts no handler: one would run without the caller's deadline
  "thorough": [c08_parse(n) for n in range(0, 14)] + [job("H_C08_lookup", reach=["has-deadline", "no-deadline"], entries=2, vlen=3),
             job("H_C08_lookup", reach=["has-deadline", "no-deadline"], entries=3, vlen=2)] + c08_tail + [c08e(0, 1, 1), c08e(1, 1, 1)],
 }
@@ -100,12 +100,12 @@ P["C03"] = {
 # ---------------------------------------------------------------- C04
 P["C04"] = {
  "title": "request metadata, response headers and trailers arrive intact",
- "bounds": "ToMetadata(ToKeyValue(md)) for K keys (text and -bin, every letter case), 1..V values per key, every value of length 0..vlen over all 256 byte values, all map iteration orders; repeated-MD join; header emission modes (SetHeader+first message, SendHeader, with trailer; handler ok / error) end to end (H_C04_stream_md); unary response headers and trailers on the wire for SetHeader/SendHeader/SetTrailer in three orders, handler ok / error (H_C04_unary_md); request metadata (upper-case key, two values, one -bin value of 2 arbitrary bytes) end to end for one unary and one streaming call (H_C08_e2e, md=1)",
+ "bounds": "ToMetadata(ToKeyValue(md)) for K keys (text and -bin, every letter case), 1..V values per key, every value of length 0..vlen over all 256 byte values, all map iteration orders; repeated-MD join; header emission modes (SetHeader+first message, SendHeader, with trailer; handler ok / error) end to end (H_C04_stream_md); unary response headers and trailers on the wire for SetHeader/SendHeader/SetTrailer in three orders, handler ok / error (H_C04_unary_md); request metadata (upper-case key, two values, one -bin value of 2 arbitrary bytes) end to end for one unary and one streaming call (H_C08_e2e, md=1); SendHeader concurrent with a send from a second goroutine of the handler, every interleaving (H_C04_stream_md mode=5)",
  "assumptions": ["encoding/base64 executed from its own SSA (tables as SMT arrays)", "keys are ASCII letters and '-' (gRPC key alphabet)"],
  "quick": [job("H_C04_roundtrip", reach=["checked"], K=2, V=2, vlen=2), job("H_C04_roundtrip", reach=["checked"], K=1, V=1, vlen=3, allbin=1), job("H_C04_join", reach=["checked"]),
            job("H_C04_request_md", reach=["checked"], deadline=0), job("H_C04_request_md", reach=["checked"], deadline=1)] +
-          [job("H_C04_stream_md", conc=True, reach=["checked"], mode=m, herr=h) for m in (0, 1, 2) for h in (0, 1)] + [job("H_C04_stream_md", conc=True, reach=["checked"], mode=m, herr=0) for m in (3, 4)] + [job("H_C04_unary_md", conc=True, reach=["checked"], mode=m) for m in (0, 1, 2, 3)] + [c08e(0, 0, 1), c08e(1, 0, 1)],
- "thorough": [c08e(0, 0, 1), c08e(1, 0, 1), c08e(0, 1, 1)] + [job("H_C04_unary_md", conc=True, reach=["checked"], mode=m) for m in (0, 1, 2, 3)] + [job("H_C04_stream_md", conc=True, reach=["checked"], mode=m, herr=0) for m in (3, 4)] + [job("H_C04_stream_md", conc=True, reach=["checked"], mode=m, herr=h) for m in (0, 1, 2) for h in (0, 1)] + [job("H_C04_request_md", reach=["checked"], deadline=0), job("H_C04_request_md", reach=["checked"], deadline=1), job("H_C04_roundtrip", reach=["checked"], K=2, V=2, vlen=2), job("H_C04_roundtrip", reach=["checked"], K=1, V=1, vlen=3, allbin=1),
+          [job("H_C04_stream_md", conc=True, reach=["checked"], mode=m, herr=h) for m in (0, 1, 2) for h in (0, 1)] + [job("H_C04_stream_md", conc=True, reach=["checked"], mode=m, herr=0) for m in (3, 4, 5)] + [job("H_C04_unary_md", conc=True, reach=["checked"], mode=m) for m in (0, 1, 2, 3)] + [c08e(0, 0, 1), c08e(1, 0, 1)],
+ "thorough": [c08e(0, 0, 1), c08e(1, 0, 1), c08e(0, 1, 1)] + [job("H_C04_unary_md", conc=True, reach=["checked"], mode=m) for m in (0, 1, 2, 3)] + [job("H_C04_stream_md", conc=True, reach=["checked"], mode=m, herr=0) for m in (3, 4, 5)] + [job("H_C04_stream_md", conc=True, reach=["checked"], mode=m, herr=h) for m in (0, 1, 2) for h in (0, 1)] + [job("H_C04_request_md", reach=["checked"], deadline=0), job("H_C04_request_md", reach=["checked"], deadline=1), job("H_C04_roundtrip", reach=["checked"], K=2, V=2, vlen=2), job("H_C04_roundtrip", reach=["checked"], K=1, V=1, vlen=3, allbin=1),
               job("H_C04_roundtrip", reach=["checked"], K=3, V=1, vlen=3), job("H_C04_roundtrip", reach=["checked"], K=2, V=1, vlen=3, allbin=1), job("H_C04_join", reach=["checked"])],
 }
 
@@ -128,13 +128,13 @@ P["C05"] = {
 
 # ---------------------------------------------------------------- C06
 def c06(**kw): return job("H_C06_wire", conc=True, reach=["checked"], **kw)
-c06q = [job("H_C06_server_stream", conc=True, reach=["checked"], sendheader=e) for e in (0, 1)] + [c06(kind=1, cp=0, hp=0, msgs=1, herr=h, tcap=1) for h in (2, 3, 4)] + [c06(kind=0, herr=0, hdrmode=1), c06(kind=0, herr=1), c06(kind=1, cp=0, hp=0, msgs=1, hdrmode=1), c06(kind=1, cp=0, hp=0, msgs=1, hdrmode=2),
+c06q = [job("H_C06_server_stream", conc=True, reach=["checked"], sendheader=e) for e in (0, 1)] + [job("H_C12_seq", conc=True, reach=["checked"], L=2, first=6, second=5), job("H_C12_seq", conc=True, reach=["checked"], L=2, first=8, second=5)] + [c06(kind=1, cp=0, hp=0, msgs=1, herr=h, tcap=1) for h in (2, 3, 4)] + [c06(kind=0, herr=0, hdrmode=1), c06(kind=0, herr=1), c06(kind=1, cp=0, hp=0, msgs=1, hdrmode=1), c06(kind=1, cp=0, hp=0, msgs=1, hdrmode=2),
         c06(kind=1, cp=2, hp=1, msgs=1, herr=1, hdrmode=3), c06(kind=1, cp=0, hp=3, msgs=2), c06(kind=1, cp=2, hp=0, msgs=1, cancel=1, tcap=1), c06(kind=0, cancel=1),
         c06(kind=1, cp=0, hp=0, msgs=1, wfail=2, tcap=1), c06(kind=1, cp=0, hp=0, msgs=1, badmsg=1, tcap=1),
         c06(kind=1, cp=0, hp=3, msgs=2, zero=1, tcap=2), c06(kind=1, cp=0, hp=0, msgs=1, zero=1)]
 P["C06"] = {
  "title": "every emitted envelope sequence conforms to the documented wire protocol",
- "bounds": "complete wire history (taps on both directions) of one RPC per scenario, checked by the protocol automaton at every quiescent state: unary ok/error/cancel; bidi streams over the C02 program families with header modes {none, SetHeader+first message, SendHeader, SetTrailer}, handler errors, early handler return (reset path) and caller cancellation at an arbitrary point; msgs <= 2; all interleavings",
+ "bounds": "complete wire history (taps on both directions) of one RPC per scenario, checked by the protocol automaton at every quiescent state: unary ok/error/cancel; bidi streams over the C02 program families with header modes {none, SetHeader+first message, SendHeader, SetTrailer}, handler errors, early handler return (reset path) and caller cancellation at an arbitrary point; msgs <= 2; all interleavings; error replies to a unary request / stream open with undecodable metadata keep the response direction (H_C12_seq first=6,8)",
  "assumptions": GEN_ASSUME,
  "quick": c06q,
  "thorough": c06q + [c06(kind=1, cp=2, hp=1, msgs=2, hdrmode=1, cancel=1, tcap=1), c06(kind=1, cp=1, hp=0, msgs=1, cancel=1, tcap=1), c06(kind=1, cp=0, hp=2, msgs=2, herr=1), c06(kind=1, cp=0, hp=0, msgs=2, hdrmode=1)],
@@ -194,13 +194,14 @@ P["C12"] = {
 # ---------------------------------------------------------------- C13
 P["C13"] = {
  "title": "no envelope sequence from a peer can crash a client or leave a call hanging",
- "bounds": "two outstanding calls (unary+unary, unary+stream, stream+stream), with and without a stats handler; every sequence of L response envelopes over 13 shapes addressed to call 1, call 2 or an unknown id, then the connection closes (and, H_C11_client_cancel_unread: m bodies that nobody receives followed by the caller's cancellation); L = 1..2 (quick), 3 for unary+unary (thorough); all interleavings",
+ "bounds": "two outstanding calls (unary+unary, unary+stream, stream+stream), with and without a stats handler; every sequence of L response envelopes over 13 shapes addressed to call 1, call 2 or an unknown id, then the connection closes (and, H_C11_client_cancel_unread: m bodies that nobody receives followed by the caller's cancellation); L = 1..2 (quick), 3 for unary+unary (thorough); all interleavings; the connection's end reported as io.EOF (eof=1) for one unary / one streaming call",
  "assumptions": GEN_ASSUME,
  "quick": [job("H_C13_seq", conc=True, reach=["checked"], L=1, mode=m, stats=s) for m in (0, 1, 2) for s in (0, 1)] +
           [job("H_C13_seq", conc=True, reach=["checked"], L=2, mode=0, stats=1, first=f) for f in range(13)] + [job("H_C13_seq", conc=True, reach=["checked"], L=1, mode=2, stats=0, first=f) for f in (9, 12)] +
           [job("H_C13_seq", conc=True, reach=["checked"], L=3, mode=m, stats=0, preset=1) for m in (0, 1)] +
+          [job("H_C13_seq", conc=True, reach=["checked"], L=1, mode=m, stats=0, eof=1) for m in (0, 1, 2)] +
           [job("H_C11_client_cancel_unread", conc=True, reach=["checked"], m=m) for m in (1, 3)],  # bodies nobody receives, then the caller gives up: the call must still end
- "thorough": [job("H_C11_client_cancel_unread", conc=True, reach=["checked"], m=m) for m in (1, 3)] + [job("H_C13_seq", conc=True, reach=["checked"], L=4, mode=0, stats=0, preset=1)] + [job("H_C13_seq", conc=True, reach=["checked"], L=1, mode=m, stats=s) for m in (0, 1, 2) for s in (0, 1)] +
+ "thorough": [job("H_C11_client_cancel_unread", conc=True, reach=["checked"], m=m) for m in (1, 3)] + [job("H_C13_seq", conc=True, reach=["checked"], L=4, mode=0, stats=0, preset=1)] + [job("H_C13_seq", conc=True, reach=["checked"], L=1, mode=m, stats=0, eof=1) for m in (0, 1, 2)] + [job("H_C13_seq", conc=True, reach=["checked"], L=1, mode=m, stats=s) for m in (0, 1, 2) for s in (0, 1)] +
           [job("H_C13_seq", conc=True, reach=["checked"], L=2, mode=m, stats=1, first=f) for f in range(13) for m in (0, 1)] +
           [job("H_C13_seq", conc=True, reach=["checked"], L=3, mode=0, stats=0, first=f, second=s2) for f in range(13) for s2 in range(13)],  # split by the first two shapes: 169 jobs of 1-3 min
 }
@@ -255,12 +256,12 @@ P["C18"] = {
 }
 
 # ---------------------------------------------------------------- C19
-c19q = [dict(job("H_C19_ws_read", reach=["valid", "rejected"]), env=True), dict(job("H_C19_ws_write", reach=["checked"]), env=True), dict(job("H_C19_ws_write", reach=["checked"], zero=1), env=True), dict(job("H_C19_http_ack", conc=True, reach=["checked"]), env=True), dict(job("H_C19_ws_write_conc", conc=True, reach=["checked"]), env=True, race=True), job("H_C19_channel", conc=True, reach=["checked"]),
+c19q = [dict(job("H_C19_ws_read", reach=["valid", "rejected"]), env=True), dict(job("H_C19_ws_write", reach=["checked"]), env=True), dict(job("H_C19_ws_write", reach=["checked"], zero=1), env=True), dict(job("H_C19_http_ack", conc=True, reach=["checked"]), env=True), dict(job("H_C19_http_idle_stamped", conc=True, reach=["checked"]), env=True), dict(job("H_C19_ws_write_conc", conc=True, reach=["checked"]), env=True, race=True), job("H_C19_channel", conc=True, reach=["checked"]),
         job("H_C19_http_serve", conc=True, reach=["valid", "rejected"]), job("H_C19_http_idle", conc=True, reach=["checked"], reader=0), job("H_C19_http_idle", conc=True, reach=["checked"], reader=1),
         dict(job("H_C19_http_idle", conc=True, reader=1), race=True), dict(job("H_C19_http_serve", conc=True), race=True)]
 P["C19"] = {
  "title": "shipped transports carry every envelope unchanged and reject what is not one",
- "bounds": "goat's glue around each transport: WebSocket Read over {library error, text frame, undecodable bytes, valid binary} and Write; channel transport FIFO for 3 envelopes and cancellation of a blocked Read and Write; HTTP ServeHTTP over 7 request shapes; HTTP delivery vs reader vs idle-timeout tick vs context cancellation in every order",
+ "bounds": "goat's glue around each transport: WebSocket Read over {library error, text frame, undecodable bytes, valid binary} and Write; channel transport FIFO for 3 envelopes and cancellation of a blocked Read and Write; HTTP ServeHTTP over 7 request shapes; HTTP delivery vs reader vs idle-timeout tick vs context cancellation in every order; HTTP: a connection that carried traffic, 30 s of silence against a 10 s timeout, reader blocked (H_C19_http_idle_stamped)",
  "assumptions": ["the WebSocket library, net/http and the protobuf wire format are environment stubs: proto.Marshal/Unmarshal are inverse up to protobuf's normalisation (wire tokens), raw bytes are undecodable; 'equal to what was written' is therefore decided for goat's glue, not for protobuf or the network stacks"],
  "quick": c19q, "thorough": c19q,
 }
